@@ -84,24 +84,26 @@ prop("C01", ["PepitVerif/Props/C01.lean", "PepitVerif/Math/CvxSem.lean", "PepitV
      assumptions=["that the numbers a real solver returns satisfy KKT is runtime behaviour: monitored by the numeric oracle, not proved"])
 
 prop("C02", ["PepitVerif/Props/C02.lean", "PepitVerif/Props/C13.lean"], only=[r"C02\.", "expr_latest", "eval_pure"],
-     streams=[stream("resolve (eval of points/expressions/constraints after scripted solves)", "resolve", 150, 3000, offset=7)],
-     direct=[oracle("c02_instance", 12, 150)],
+     streams=[stream("resolve (eval of points/expressions/constraints after scripted solves)", "resolve", 150, 3000, offset=7),
+              stream("collect (the objective is the minimum of the CURRENT metrics: epigraph constraints sent at each solve)", "collect", 100, 2000, env={"PEPV_TEE": "1", "STUBS": "1"}, offset=109)],
+     direct=[oracle("c02_instance", 32, 300)],
      assumptions=["eigendecomposition/QR accuracy and feasibility up to solver tolerance are floating-point facts: monitored numerically, not proved"])
 
 prop("C03", ["PepitVerif/Props/C03.lean", "PepitVerif/Props/C03LMI.lean", "PepitVerif/Props/C03Quad.lean", "PepitVerif/Math/ClassForms.lean", "PepitVerif/Math/Convex.lean"],
      streams=[stream("cls (class constraints of all 24 classes: names, senses, decompositions, LMIs)", "cls", 200, 4000)],
-     direct=[oracle("c03_members", 40, 600)],
+     direct=[oracle("c03_members", 260, 2600)],
      trusted=["class membership predicates in first-order form (the equivalence with 'gradient is L-Lipschitz' is textbook and not re-proved)"])
 
 prop("C04", ["PepitVerif/Props/C04.lean", "PepitVerif/Props/C04Suff.lean", "PepitVerif/Math/PairsSem.lean", "PepitVerif/Math/ClassForms.lean"],
-     streams=[stream("cls (glue: which lists, skip rule, symmetry, tables) on random interleavings", "cls", 200, 4000, offset=11)],
+     streams=[stream("cls (glue: which lists, skip rule, symmetry, tables) on random interleavings", "cls", 200, 4000, offset=11),
+              stream("collect (class constraints of every leaf function reach the solver, also for functions sampled once)", "collect", 100, 2000, env={"PEPV_TEE": "1", "STUBS": "1"}, offset=113)],
      direct=[oracle("c04_orders", 30, 400), oracle("c04_counts", 120, 2000)],
      trusted=["hand transcription of the documented conditions (Canon.*)"],
-     assumptions=["sufficiency of the interpolation conditions is proved for ConvexFunction, ConvexLipschitzFunction and StronglyConvexFunction (C04Suff.lean); for the smooth classes (conjugation argument) and the operator classes (Kirszbraun-type extensions) it is literature-trusted, not proved"])
+     assumptions=["sufficiency of the interpolation conditions is proved for ConvexFunction, ConvexLipschitzFunction, StronglyConvexFunction, ConvexSupportFunction and ConvexIndicatorFunction (C04Suff.lean); for the smooth classes (conjugation argument) and the operator classes (Kirszbraun-type extensions) it is literature-trusted, not proved"])
 
 prop("C05", ["PepitVerif/Props/C05.lean", "PepitVerif/Math/MatricesSem.lean", "PepitVerif/Math/SparseSem.lean"],
      streams=[stream("collect+tee (sent list, dense matrices, MOSEK Task call list)", "collect", 120, 2500, env={"PEPV_TEE": "1", "STUBS": "1"})],
-     direct=[oracle("c05_translators", 300, 6000), oracle("c05_sent", 40, 600), oracle("c11_backends", 28, 300, stubs=True)],
+     direct=[oracle("c05_translators", 300, 6000), oracle("c05_sent", 40, 600), oracle("c11_backends", 32, 300, stubs=True)],
      trusted=["stand-in mosek module (records Task calls; harness/stubs/mosek)"])
 
 prop("C06", ["PepitVerif/Props/C06.lean", "PepitVerif/Math/AlgebraSem.lean", "PepitVerif/Math/WellFormed.lean", "PepitVerif/Math/Interp.lean"],
@@ -118,12 +120,12 @@ prop("C08", ["PepitVerif/Props/C08.lean", "PepitVerif/Math/StepsSem.lean"],
      direct=[oracle("c08_steps", 300, 5000)],
      assumptions=["real_sound is proved for the proximal, linear-optimisation and inexact-gradient steps; exact line search, Bregman and ε-subgradient/inexact-prox real sides are not formalised"])
 
-prop("C09", ["PepitVerif/Props/C09.lean", "PepitVerif/Math/Certificate.lean"], only=[r"C09\.", "cert_sound", "trace_mul_nonneg"],
+prop("C09", ["PepitVerif/Props/C09.lean", "PepitVerif/Math/Certificate.lean", "PepitVerif/Props/C10.lean"], only=[r"C09\.", "cert_sound", "trace_mul_nonneg", "gd_no_run_beats_bound", "gd_contraction_n", "gd_contraction_upper", "subgradient_bound", "subg_telescope", "pg_contraction", "prox_nonexpansive"],
      streams=[stream("steps (recorded relations of the steps the examples are built from)", "steps", 100, 2000, offset=61),
               stream("cls (class constraints the examples rely on)", "cls", 100, 2000, offset=67),
               stream("collect+cvx (what the pipeline sends and records as sent; the real cvxpy wrapper)", "collect", 80, 1500, env={"PEPV_TEE": "1", "STUBS": "1"}, offset=89),
               stream("resolve (returned dual value rebuilt from the recorded list of sent constraints)", "resolve", 80, 1500, offset=97)],
-     direct=[oracle("c09_runs", 33, 440), oracle("c03_members", 40, 600)],
+     direct=[oracle("c09_runs", 33, 440), oracle("c03_members", 260, 2600)],
      trusted=["independent NumPy implementations of 10 method families (harness/oracles5.py), transcribed from the documented algorithms"],
      assumptions=["that each example script implements the method its docstring names is not visible to Lean: sampled by real runs only",
                   "solver accuracy (CLARABEL ~1e-8) enters the comparison with tolerance 1e-5 relative"])
@@ -138,13 +140,14 @@ prop("C10", ["PepitVerif/Props/C10.lean", "PepitVerif/Math/ClassForms.lean"],
 
 prop("C11", ["PepitVerif/Props/C11.lean"],
      streams=[stream("collect+tee (Task call list of the real MosekWrapper on the stand-in vs model; dense data)", "collect", 150, 3000, env={"PEPV_TEE": "1", "STUBS": "1"}, offset=53)],
-     direct=[oracle("c11_backends", 28, 300, stubs=True), oracle("c11_heuristic", 8, 80, stubs=True)],
+     direct=[oracle("c11_backends", 32, 300, stubs=True), oracle("c11_heuristic", 8, 80, stubs=True)],
      trusted=["stand-in mosek module (harness/stubs/mosek): records Task calls and solves the recorded task through cvxpy, reporting duals in MOSEK's documented convention for maximisation problems (transcribed from the manual); real MOSEK is absent"],
      assumptions=["the semantics of MOSEK's Task API (appendsparsesymmat lower-triangle reading, bound keys, dual signs) are a transcription, not verified against real MOSEK"])
 
 prop("C14", ["PepitVerif/Props/C14.lean"],
-     streams=[stream("flow (call and data flow of _solve_with_wrapper under a scripted wrapper, all option combinations)", "flow", 200, 3000, script="corr_c14.py")],
-     direct=[oracle("c14_dimred", 14, 160)],
+     streams=[stream("flow (call and data flow of _solve_with_wrapper under a scripted wrapper, all option combinations)", "flow", 200, 3000, script="corr_c14.py"),
+              stream("collect+cvxheur (contract of the real CvxpyWrapper's prepare_heuristic / heuristic)", "collect", 100, 2000, env={"PEPV_TEE": "1", "STUBS": "1"}, offset=127)],
+     direct=[oracle("c14_dimred", 32, 320)],
      assumptions=["the solver returns an optimal point of the problem it is given (oracle contract); monitored numerically with CLARABEL"])
 
 prop("C12", ["PepitVerif/Props/C12.lean"],
@@ -156,7 +159,7 @@ prop("C12", ["PepitVerif/Props/C12.lean"],
 prop("C13", ["PepitVerif/Props/C13.lean"],
      streams=[stream("resolve (histories of solves, edits, evaluations of held objects)", "resolve", 200, 4000, offset=31),
               stream("collect (what a second solve sends after the model was edited: partition constraints, new samples, changed class parameters)", "collect", 150, 3000, offset=107)],
-     direct=[oracle("c13_resolve", 14, 120)])
+     direct=[oracle("c13_resolve", 32, 240)])
 
 prop("C15", ["PepitVerif/Props/C15.lean", "PepitVerif/Math/PartitionSem.lean"],
      streams=[stream("cls (block-smooth functions, partitions with 1-3 blocks)", "cls", 250, 4000, offset=37),
@@ -169,7 +172,9 @@ prop("C16", ["PepitVerif/Props/C16.lean"],
      direct=[oracle("c16_unsolved", 40, 400)])
 
 prop("C17", ["PepitVerif/Props/C17.lean", "PepitVerif/Math/PairsSem.lean"], only=[r"C17\.", "mem_pairsTwo", "pairIdx_same"],
-     streams=[stream("cls (tables of constraints for every class, named and unnamed points)", "cls", 250, 4000, offset=47)],
+     streams=[stream("cls (tables of constraints for every class, named and unnamed points)", "cls", 250, 4000, offset=47),
+              stream("resolve (dual tables after scripted solves, edits and re-solves)", "resolve", 150, 3000, offset=131),
+              stream("collect (every constraint stored in a table reaches the solver)", "collect", 100, 2000, env={"PEPV_TEE": "1", "STUBS": "1"}, offset=137)],
      direct=[oracle("c17_tables", 120, 1200)])
 
 
